@@ -470,7 +470,9 @@ def gen_guards():
     def unguarded(src):
         """`X.entity(V)` / `X.entity_mut(V)` not preceded, in the same fn, by `get_entity(V)` / `get_entity_mut(V)`"""
         n, sites = 0, []
-        fns = [m.start() for m in re.finditer(r"\bfn\s+\w+", src)] + [len(src)]
+        # scopes: function bodies, cut again at every `Message::X {..} =>` arm (the arms reuse variable names)
+        fns = sorted(set([m.start() for m in re.finditer(r"\bfn\s+\w+", src)] +
+                         [m.start() for m in re.finditer(r"Message::\w+\s*(\{[^}]*\})?\s*=>", src)])) + [len(src)]
         for a, b in zip(fns, fns[1:]):
             body = src[a:b]
             for m in re.finditer(r"\.\s*(entity|entity_mut)\(\s*\*?(\w+)\s*\)", body):
@@ -786,7 +788,7 @@ def gen_asset():
     for c in ("mesh", "image", "audio"):
         b = re.sub(r"\s+", "", fn_body(amod_src, "process_%s_assets" % c))
         filed_here = ("sync_tracker.handle_pushed_from_network(id);" in b) or ("sync_tracker.pushed_handles_from_network.insert(id);" in b)
-        proc = proc and "map.drain()" in b and filed_here and ".insert(" in b
+        proc = proc and "map.drain()" in b and filed_here and ".insert(" in b and ".take(" not in b and "break" not in b
     # react_on_changed_<class>: debounce, serve, announce
     react = True
     for side, sender in (("server", "server.send_message(cid,"), ("client", "client.send_message(")):
